@@ -76,6 +76,7 @@ def _k1_job(job):
         if is_p0010 != cyc:
             part.add('C07/K1/verdict/' + role_g, '%s graph with edges %s is %s but the analyzer %s' % (real, edges, 'cyclic' if cyc else 'acyclic', 'reports recursion (P0010)' if is_p0010 else 'does not report recursion (%s)' % (code or 'Ok')),
                      {'realisation': real, 'edges': edges, 'source': src, 'cyclic': cyc}, ('graph', (src, cyc)))
+        elif len(part.validate) < 1: part.validate.append(('graph', (src, cyc)))
         if len(part.samples) < 1: part.samples.append({'realisation': real, 'K': K, 'edges': edges, 'cyclic': cyc, 'verdict': code or 'Ok'})
     M.explore(entry, on_path)
     part.queries += M.stats['smt']; part.encoded = set(M.encoded); part.models = set(M.models_used)
